@@ -316,7 +316,7 @@ public:
       return Error::kOk;
     }
     else {
-      if (consecutive_parent != tied_reg->consecutive_parent()) {
+      if (consecutive_parent && consecutive_parent != tied_reg->consecutive_parent()) {
         if (tied_reg->has_consecutive_parent()) {
           return make_error(Error::kInvalidState);
         }
